@@ -529,17 +529,37 @@ def _structure_guards_by_evaluation(ctx, ck, base) -> bool:
         'one leaf more': ([s, t], [s, t, s], False),
     }
     other = StructLeaf(((frozenset({'o'}), 5),), 'float32')
+    o2, o3, o4 = (StructLeaf(((frozenset({f'o{i}'}), 5 + i),), 'float32') for i in (2, 3, 4))
     problems: list[str] = []
     n = 0
     for text, (x, y, same) in variants.items():
         for sym, op_node in (('@', ast.MatMult), ('+', ast.Add), ('-', ast.Sub)):
             cases = []
             if sym == '@':
-                cases.append((Obj(generic, {'_in_structure': x, '__out__': other, 'name': 'L'}), Obj(generic, {'_in_structure': other, '__out__': y, 'name': 'R'}), 'in_structure(L) vs out_structure(R)'))
+                cases.append((Obj(generic, {'_in_structure': x, '__out__': other, 'name': 'L'}), Obj(generic, {'_in_structure': o2, '__out__': y, 'name': 'R'}), 'in_structure(L) vs out_structure(R)'))
             else:
                 cases.append((Obj(generic, {'_in_structure': x, '__out__': other, 'name': 'L'}), Obj(generic, {'_in_structure': y, '__out__': other, 'name': 'R'}), 'the input structures'))
                 cases.append((Obj(generic, {'_in_structure': other, '__out__': x, 'name': 'L'}), Obj(generic, {'_in_structure': other, '__out__': y, 'name': 'R'}), 'the output structures'))
+            # the same operands inside a product (for @) or a sum (for + and -): the dunders of the composite classes are evaluated too
+            comp_cls, add_cls = table.find(f'{CORE}.CompositionOperator'), table.find(f'{CORE}.AdditionOperator')
+            wrapped = []
             for L, R, which in cases:
+                def g(i, o, name):
+                    return Obj(generic, {'_in_structure': i, '__out__': o, 'name': name})
+                if sym == '@' and comp_cls is not None:
+                    # (every interface of the chain has a structure of its own, so that a check made on the wrong end cannot pass by accident)
+                    Lc = Obj(comp_cls, {'operands': [g(other, o4, 'L0'), L], '__out__': o4})
+                    Rc = Obj(comp_cls, {'operands': [R, g(o3, o2, 'R0')], '__out__': R.attrs['__out__']})
+                    wrapped += [(Lc, R, which + ' (L a product)'), (L, Rc, which + ' (R a product)'), (Lc, Rc, which + ' (both products)')]
+                    ident_cls = table.find(f'{CORE}.IdentityOperator')
+                    if ident_cls is not None:
+                        Li = Obj(ident_cls, {'_in_structure': L.attrs['_in_structure'], '__out__': L.attrs['_in_structure']})
+                        wrapped += [(Li, R, which + ' (L the identity)'), (Li, Rc, which + ' (L the identity, R a product)')]
+                elif sym != '@' and add_cls is not None:
+                    La = Obj(add_cls, {'operands': [L, g(L.attrs['_in_structure'], L.attrs['__out__'], 'L1')], '__out__': L.attrs['__out__']})
+                    Ra = Obj(add_cls, {'operands': [R, g(R.attrs['_in_structure'], R.attrs['__out__'], 'R1')], '__out__': R.attrs['__out__']})
+                    wrapped += [(La, R, which + ' (L a sum)'), (L, Ra, which + ' (R a sum)'), (La, Ra, which + ' (both sums)')]
+            for L, R, which in cases + wrapped:
                 n += 1
                 it = Interp(world, table, budget=40_000)
                 it.symbolic = True
@@ -565,7 +585,7 @@ def _structure_guards_by_evaluation(ctx, ck, base) -> bool:
     mm = table.resolve(base, '__matmul__')
     ck.expect('S1', not problems, mm.node if mm is not None else base.node, f'on {n} combinations (product, sum, difference; shape / dtype / container / key / nesting / length mismatches) operators are combined exactly when the structures agree, and ValueError is raised otherwise',
               f'{problems[0] if problems else ""} ({len(problems)} of {n})', instance='structure guards by evaluation', semantic=True)
-    ck.floor('S1', n, 30, 'structure combinations evaluated')
+    ck.floor('S1', n, 100, 'structure combinations evaluated')
     return True
 
 
@@ -622,7 +642,8 @@ def run(ctx, ck) -> None:
     additive_decided = _additive_by_evaluation(ctx, ck, base, comp, add, identity, homothety)
     if _structure_guards_by_evaluation(ctx, ck, base):
         # the written form of the guards of the base dunders is kept only where it confirms
-        ck.obs[s4_start:] = [o for o in ck.obs[s4_start:] if not (o.rule.endswith('S1') and o.status == 'incomplete' and 'AbstractLinearOperator.__' in o.construct)]
+        ck.obs[s4_start:] = [o for o in ck.obs[s4_start:] if not (o.rule.endswith('S1') and o.status == 'incomplete' and any(f'{k}.__' in o.construct for k in ('AbstractLinearOperator', 'CompositionOperator', 'AdditionOperator', 'IdentityOperator'))
+                                                                   and any(d in o.construct for d in ('__matmul__', '__rmatmul__', '__add__', '__radd__', '__sub__')))]
     ck.floor('S1', ndunders, 16, 'arithmetic dunders on operator classes')
     ck.floor('S1', npaths, 14, 'operator-returning paths of structural binary dunders')
 
